@@ -289,6 +289,39 @@ def run_case(case, ctx):
             ok3 = st3 == 'ok' and m3[0] == 'rows' and type(res3) is dictable and sorted(res3.keys()) == sorted(m3[1]) and \
                 collections.Counter(rowkey(r) for r in rows_of(res3)) == collections.Counter(rowkey(r) for r in m3[2])
             ctx.check('repeat_after_column_reassignment', ok3, lambda: '%s repeated on the same table after reassigning column %r: got %s, model %s' % (op, c0, rows_of(res3) if st3 == 'ok' else res3, m3[2] if m3[0] == 'rows' else m3))
+    # a result is a table like any other: joined / anti-joined again on SOME of its key columns (not a leading prefix of them), it behaves
+    # like a table built afresh from the same rows - nothing remembered about how it was produced may be relied upon
+    if ok and op == 'join' and case.get('chain') and len(rows) and m[0] == 'rows':
+        items = _keyspec(case['l']) or [c for c in xc if c in yc]
+        knames = [n_ for n_ in cols[:len(items)]]
+        if len(knames) >= 2 and all(isinstance(i, str) for i in items) and (_keyspec(case['r']) is None or all(isinstance(i, str) for i in _keyspec(case['r']))):
+            sub = knames[1:] if case['chain'] == 'tail' else knames[::-1]
+            if case['chain'] == 'last':
+                sub = knames[-1:]
+            seen_, zrows = set(), []
+            for r_ in rows[::2] + rows[:1]:
+                kk = rowkey({c: r_[c] for c in sub})
+                if kk not in seen_:
+                    seen_.add(kk)
+                    zrows.append(dict({c: r_[c] for c in sub}, ztag=len(zrows)))
+            z = dictable(zrows)
+            zc = sub + ['ztag']
+            for which in ('join', 'xor', 'rjoin'):
+                with StepBudget(codes, 60 * (len(rows) + len(zrows)) + 1500):
+                    if which == 'join':
+                        st4, r4 = ctx.call(res.join, z, list(sub))
+                        m4 = model_join(cols, rows, zc, zrows, {'list': list(sub)}, {'list': list(sub)}, None)
+                    elif which == 'xor':
+                        st4, r4 = ctx.call(res.xor, z, list(sub))
+                        m4 = model_xor(cols, rows, zc, zrows, {'list': list(sub)}, {'list': list(sub)})
+                    else:
+                        st4, r4 = ctx.call(z.join, res, list(sub))
+                        m4 = model_join(zc, zrows, cols, rows, {'list': list(sub)}, {'list': list(sub)}, None)
+                ok4 = st4 == 'ok' and m4[0] == 'rows' and type(r4) is dictable and sorted(r4.keys()) == sorted(m4[1]) and \
+                    collections.Counter(rowkey(r_) for r_ in rows_of(r4)) == collections.Counter(rowkey(r_) for r_ in m4[2])
+                ctx.check('result_joined_again', ok4, lambda: 'the result of the first join (keys %s), %s on %s with a table of %d of its own key values: got %s\nmodel %s' % (
+                    knames, which, sub, len(zrows), rows_of(r4) if st4 == 'ok' else r4, m4[2] if m4[0] == 'rows' else m4))
+            ctx.cls('chain:%s' % case['chain'])
     # classes / non-triviality
     kl = _keycells(case, 'x'); kr = _keycells(case, 'y')
     if xr and yr:
@@ -435,6 +468,8 @@ def gen_case(rng, maxrows):
         case = rename_columns(case)
     if rng.random() < 0.1 and y:
         case['other_as'] = rng.choice(['dict', 'records'])
+    if op == 'join' and nk >= 2 and rng.random() < 0.5:
+        case['chain'] = rng.choice(['tail', 'reversed', 'last'])
     return case
 
 
